@@ -257,6 +257,10 @@ func (g *genCtx) historySpec(earlier []string) ProgSpec {
 	if g.r.p(0.3) {
 		src = "Patient.name." + name + "()"
 	}
+	if g.r.p(0.15) {
+		// a Compile that fails in the parser or the visitor: nothing of it may survive into later Compiles
+		src = pick(g.r, []string{"Patient.name.", "1 +", "nosuchfn()", "Patient.name.where(", "'unterminated", "Patient..name", "%", "@2020-13-45", name + "(", name + "(1, 2, 3)", "Patient.name.select(" + name + "().nosuchfn())"})
+	}
 	return ProgSpec{Src: src, Opts: opts, Patch: g.r.p(0.2)}
 }
 
